@@ -264,7 +264,11 @@ func HarnessL3() {
 	zzvrt.Check("C05.L3.bounds", zzvrt.Implies(zzvrt.And(base, f.others("num")), zzvrt.Iff(accepted, f.num)), refDev)
 	if cfg.MinSizedInts {
 		// C15: with --min-sized-ints the emitted program still denotes the stated interval
-		zzvrt.Check("C15.L3.min-sized-ints-keep-the-stated-interval", zzvrt.Implies(zzvrt.And(base, f.others("num")), zzvrt.Iff(accepted, f.num)), refDev)
+		// (nullable definitions keep no validation with or without the flag: acceptance does not
+		// change there, so the region is outside this check rather than a deviation of it)
+		if !refNullable {
+			zzvrt.Check("C15.L3.min-sized-ints-keep-the-stated-interval", zzvrt.Implies(zzvrt.And(base, f.others("num")), zzvrt.Iff(accepted, f.num)))
+		}
 	}
 	zzvrt.Check("C05.L3.multiple-of", zzvrt.Implies(zzvrt.And(base, f.others("mult")), zzvrt.Iff(accepted, f.mult)), refDev)
 	zzvrt.Check("C06.L3.length-pattern", zzvrt.Implies(zzvrt.And(zzvrt.And(nd, zzvrt.And(noItems, zzvrt.Not(f.nullObject))), f.others("str")), zzvrt.Iff(accepted, f.str)), bytesDev, refDev)
